@@ -135,9 +135,8 @@ def run(R):
         R.must_call("C03.pay.closest", PAY, ["ant_networking::Network::get_closest_k_value_local_peers"], "payees are compared with get_closest_k_value_local_peers")
         R.must_call("C03.pay.retain", PAY, ["alloc::vec::Vec::retain"], "payees.retain(not in closest)")
         # (5) quoted address
-        quoted = CmpGuard(P(1), field_read_seeds("content"), "Eq",
-                          "this node's quote.content equals the stored address", through="all")
-        R.gate_reject("C03.pay.quoted-address", pay, ok_ret, [quoted], descr="Ok(()) unreachable once a quote of this node is for another address")
+        R.forall_compare("C03.pay.quoted-address", pay, field_read_seeds("content"), P(1), ok_ret,
+                         "this node's quote.content equals the stored address")
         R.must_call("C03.pay.own-quotes", PAY, ["ant_evm::data_payments::ProofOfPayment::quotes_by_peer"], "the compared quotes are this node's (quotes_by_peer)")
 
     # (4) verify_for
